@@ -150,6 +150,7 @@ uint32_t ll_bcmp(uint8_t* a, uint8_t* b, uint64_t n) { return (uint32_t)memcmp(a
 uint64_t ll_strlen(uint8_t* a) { return strlen((char*)a); }
 uint64_t ll_strnlen(uint8_t* a, uint64_t n) { uint64_t i = 0; while (i < n && a[i]) i++; return i; }
 uint32_t ll_strcmp(uint8_t* a, uint8_t* b) { return (uint32_t)strcmp((char*)a, (char*)b); }
+uint8_t* ll_memchr(uint8_t* s, uint32_t c, uint64_t n) { for (uint64_t i = 0; i < n; i++) if (s[i] == (uint8_t)c) return s + i; return 0; }
 void ll_abort(void) {
 #ifdef __CPROVER__
   __CPROVER_assert(0, "abort() in code under test reached");
